@@ -1,13 +1,1462 @@
-//! C12 — not yet implemented
-use crate::core::{Ctx, Outcome};
-use serde_json::Value;
+//! C12 — Reconnecting streams deliver every item once, in order, with one notice per drop.
+//!
+//! Three exhaustive layers, every one of them driving the REAL code:
+//!
+//! 1. **reconnect** (E-ENV): the real composition
+//!    `init_reconnecting_stream(script_init).await? .with_reconnect_backoff(policy, key)
+//!    .with_termination_on_error(is_terminal, key) .with_reconnection_events(origin)`
+//!    (+ `with_error_handler`, + `forward_to`) is polled by hand on a paused current-thread tokio runtime;
+//!    the harness owns the waker; whenever the subject is quiescent the paused clock jumps to the next timer
+//!    deadline (of the subject's backoff sleep or of the scripted latencies), never further; every output, every
+//!    call of the init closure and every completion of an init attempt is stamped with the virtual
+//!    `tokio::time::Instant`. Enumerated: ALL connection scripts (attempt = `Fail` | `Ok(sigma)`, sigma a word
+//!    over {I item, R recoverable error, T terminal error} followed by end-of-stream) up to the tier's bounds
+//!    x backoff policies x timings (init latency, inner-stream pacing) x observation modes. After the script
+//!    every further attempt fails and `extra` of them are observed (growth, cap and "never ends").
+//! 2. **merge**: all interleavings (<= depth steps) of {poll, push L, push R, close L, close R} against
+//!    `barter_integration::stream::merge::merge` over two real `mpsc_unbounded` receivers.
+//! 3. **forward_to**: all interleavings of {poll, push, close source, drop receiver} against
+//!    `ReconnectingStream::forward_to` into the real `UnboundedTx` and into a scripted `Tx` that starts
+//!    failing at the f-th send.
+//!
+//! The oracle is written from the statement (see `judge`, `merge_exec`, `forward_exec`); where the statement
+//! is silent (is the terminal error itself passed on? how long after a dropped connection is the next attempt
+//! made? are items of the *other* merge input that were ready when one input ended still delivered? does
+//! `forward_to` stop after a failed send?) every behaviour is accepted (the last two are counted as
+//! informational observations).
 
-pub fn run(_ctx: &Ctx) -> Outcome {
-    eprintln!("MACHINERY: C12 not implemented");
-    std::process::exit(2)
+use crate::core::{Ctx, Distinct, Outcome, Samples, hash_of};
+use crate::explore::{
+    choice::{self, Chooser},
+    env::{flag_waker, paused_rt},
+};
+use barter_data::streams::{
+    consumer::StreamKey,
+    reconnect::{
+        Event,
+        stream::{ReconnectingStream, ReconnectionBackoffPolicy, init_reconnecting_stream},
+    },
+};
+use barter_instrument::exchange::ExchangeId;
+use barter_integration::{
+    Unrecoverable,
+    channel::{Tx, UnboundedTx, mpsc_unbounded},
+    stream::merge::merge,
+};
+use futures::{Stream, StreamExt};
+use rayon::prelude::*;
+use serde::{Deserialize, Serialize};
+use serde_json::{Value, json};
+use std::{
+    future::Future,
+    pin::Pin,
+    sync::{
+        Arc, Mutex,
+        atomic::{AtomicBool, AtomicU64, Ordering},
+    },
+    task::{Context, Poll},
+    time::Duration,
+};
+use tokio::time::Instant;
+
+const ORIGIN: u32 = 77;
+type Viol = (String, String);
+
+// =====================================================================================================
+// Layer 1: reconnecting stream
+// =====================================================================================================
+
+#[derive(Debug, Clone, Copy, PartialEq, Eq, Hash, Serialize, Deserialize)]
+pub enum Mode {
+    /// events observed directly; recoverable errors are passed through as `Event::Item(Err(_))`
+    Pass,
+    /// + `with_error_handler`: recoverable errors go to the handler and are filtered out
+    Handler,
+    /// + `with_error_handler` + `forward_to(real UnboundedTx)`, observed at the receiver
+    ForwardChan,
+    /// + `with_error_handler` + `forward_to(scripted Tx failing from send number fail_at on)`
+    ForwardScript,
+    /// the composition of `ExecutionManager::init`: no termination predicate (every error is an ordinary,
+    /// non-terminal item), `with_reconnect_backoff` + `with_reconnection_events`, merged by
+    /// `barter_integration::stream::merge::merge` with a channel stream the harness feeds every 4 virtual ms
+    MergedPlain,
 }
 
-pub fn replay(_ctx: &Ctx, _case: &Value) {
-    eprintln!("MACHINERY: C12 not implemented");
-    std::process::exit(2)
+/// One execution of layer 1 (this is also the replay artefact).
+#[derive(Debug, Clone, PartialEq, Eq, Hash, Serialize, Deserialize)]
+pub struct Case {
+    pub layer: String,
+    /// (backoff_ms_initial, backoff_multiplier, backoff_ms_max)
+    pub policy: (u64, u8, u64),
+    /// attempt k: `None` = init fails, `Some(word over I/R/T)` = init ok, stream yields the word then ends.
+    /// Attempts beyond the script all fail.
+    pub script: Vec<Option<String>>,
+    /// virtual ms every init attempt takes
+    pub lat: u64,
+    /// virtual ms a connection stays `Pending` before every symbol and before its end
+    pub pace: u64,
+    pub mode: Mode,
+    /// ForwardScript only: sends number >= fail_at fail
+    pub fail_at: Option<usize>,
+    /// number of failing attempts observed after the script
+    pub extra: usize,
+}
+
+/// The error type of the scripted connections.
+#[derive(Debug, Clone, PartialEq, Eq, Hash)]
+pub struct ErrK {
+    id: u32,
+    terminal: bool,
+}
+
+#[derive(Debug)]
+pub struct InitErr(#[allow(dead_code)] usize);
+
+/// Normalised observation of one output of the composed stream.
+#[derive(Debug, Clone, PartialEq, Eq, Hash)]
+pub enum Obs {
+    Item(u32),
+    Err(u32, bool),
+    Notice(u32),
+}
+
+fn id_of(conn: usize, pos: usize) -> u32 {
+    (conn * 100 + pos) as u32
+}
+
+#[derive(Debug, Clone, PartialEq, Eq, Hash)]
+struct Call {
+    start: u64,
+    end: Option<u64>,
+    ok: bool,
+}
+
+#[derive(Default)]
+struct Log {
+    calls: Vec<Call>,
+    handled: Vec<ErrK>,
+    sends: Vec<(u64, Obs, bool)>,
+}
+
+struct Shared {
+    t0: Instant,
+    log: Mutex<Log>,
+}
+impl Shared {
+    fn now(&self) -> u64 {
+        (Instant::now() - self.t0).as_millis() as u64
+    }
+}
+
+/// A scripted connection: yields its word (I -> Ok(id), R/T -> Err) and then ends. It keeps yielding the
+/// symbols that follow a terminal error if it is polled again, so an implementation that does not stop at the
+/// terminal error is observable.
+struct Conn {
+    conn: usize,
+    syms: Vec<u8>,
+    pos: usize,
+    pace: u64,
+    sleep: Option<Pin<Box<tokio::time::Sleep>>>,
+}
+
+impl Stream for Conn {
+    type Item = Result<u32, ErrK>;
+    fn poll_next(mut self: Pin<&mut Self>, cx: &mut Context<'_>) -> Poll<Option<Self::Item>> {
+        let me = &mut *self;
+        if me.pos > me.syms.len() {
+            return Poll::Ready(None);
+        }
+        if me.pace > 0 {
+            let pace = me.pace;
+            let s = me
+                .sleep
+                .get_or_insert_with(|| Box::pin(tokio::time::sleep(Duration::from_millis(pace))));
+            match s.as_mut().poll(cx) {
+                Poll::Pending => return Poll::Pending,
+                Poll::Ready(()) => me.sleep = None,
+            }
+        }
+        let p = me.pos;
+        me.pos += 1;
+        if p == me.syms.len() {
+            return Poll::Ready(None);
+        }
+        let id = id_of(me.conn, p);
+        Poll::Ready(Some(match me.syms[p] {
+            b'I' => Ok(id),
+            b'R' => Err(ErrK { id, terminal: false }),
+            _ => Err(ErrK { id, terminal: true }),
+        }))
+    }
+}
+
+type InitFut = Pin<Box<dyn Future<Output = Result<Conn, InitErr>> + Send>>;
+
+fn make_init(case: &Case, sh: Arc<Shared>) -> impl Fn() -> InitFut + Send + 'static {
+    let script = case.script.clone();
+    let (lat, pace) = (case.lat, case.pace);
+    move || {
+        // stamped when the closure is CALLED (= when the attempt starts)
+        let k = {
+            let mut g = sh.log.lock().unwrap();
+            let start = sh.now();
+            g.calls.push(Call { start, end: None, ok: false });
+            g.calls.len() - 1
+        };
+        let entry: Option<String> = script.get(k).cloned().flatten();
+        let sh = sh.clone();
+        Box::pin(async move {
+            if lat > 0 {
+                tokio::time::sleep(Duration::from_millis(lat)).await;
+            }
+            {
+                let mut g = sh.log.lock().unwrap();
+                let now = sh.now();
+                g.calls[k].end = Some(now);
+                g.calls[k].ok = entry.is_some();
+            }
+            match entry {
+                Some(word) => Ok(Conn { conn: k, syms: word.into_bytes(), pos: 0, pace, sleep: None }),
+                None => Err(InitErr(k)),
+            }
+        })
+    }
+}
+
+/// Scripted transmitter: records every send, fails from send number `fail_at` on.
+#[derive(Clone)]
+struct ScriptTx {
+    sh: Arc<Shared>,
+    fail_at: usize,
+}
+impl std::fmt::Debug for ScriptTx {
+    fn fmt(&self, f: &mut std::fmt::Formatter<'_>) -> std::fmt::Result {
+        write!(f, "ScriptTx(fail_at={})", self.fail_at)
+    }
+}
+#[derive(Debug)]
+struct SendFail;
+impl Unrecoverable for SendFail {
+    fn is_unrecoverable(&self) -> bool {
+        true
+    }
+}
+impl Tx for ScriptTx {
+    type Item = Event<u32, u32>;
+    type Error = SendFail;
+    fn send<Item: Into<Self::Item>>(&self, item: Item) -> Result<(), Self::Error> {
+        let mut g = self.sh.log.lock().unwrap();
+        let ok = g.sends.len() < self.fail_at;
+        let now = self.sh.now();
+        g.sends.push((now, obs_of(item.into()), ok));
+        if ok { Ok(()) } else { Err(SendFail) }
+    }
+}
+
+fn obs_of(e: Event<u32, u32>) -> Obs {
+    match e {
+        Event::Reconnecting(o) => Obs::Notice(o),
+        Event::Item(i) => Obs::Item(i),
+    }
+}
+
+#[derive(Debug, Clone, PartialEq, Eq, Hash, Default)]
+struct Observation {
+    /// (virtual ms, output) in order of delivery (Pass/Handler: stream outputs; ForwardChan: receiver side;
+    /// ForwardScript: successful sends)
+    outputs: Vec<(u64, Obs)>,
+    calls: Vec<Call>,
+    handled: Vec<(u32, bool)>,
+    sends: Vec<(u64, Obs, bool)>,
+    /// the stream returned None / the forward_to future completed, at this virtual ms
+    ended: Option<u64>,
+    /// virtual ms at which the run stopped
+    stop: u64,
+    horizon_hit: bool,
+    /// MergedPlain: ids pushed into the side channel
+    side_pushed: Vec<u32>,
+}
+
+enum Subject {
+    S(Pin<Box<dyn Stream<Item = Obs> + Send>>),
+    F(Pin<Box<dyn Future<Output = ()> + Send>>),
+}
+
+fn horizon(case: &Case) -> u64 {
+    let n = case.script.len() as u64;
+    let fails = case.script.iter().filter(|a| a.is_none()).count() as u64 + case.extra as u64;
+    let syms: u64 = case.script.iter().flatten().map(|w| w.len() as u64 + 1).sum();
+    (n + case.extra as u64) * case.lat + syms * case.pace + fails * case.policy.2.max(case.policy.0) + 10
+}
+
+/// Run one case against the real code.
+fn execute(case: &Case) -> Observation {
+    let rt = paused_rt();
+    let fw = Arc::new(FwdWaker { flag: AtomicBool::new(true), outer: Mutex::new(None) });
+    let waker = std::task::Waker::from(fw.clone());
+    rt.block_on(async {
+        let sh = Arc::new(Shared { t0: Instant::now(), log: Mutex::new(Log::default()) });
+        let key = StreamKey::new_general("c12", ExchangeId::Mock);
+        let policy = ReconnectionBackoffPolicy::new(case.policy.0, case.policy.1, case.policy.2);
+        let hz = horizon(case);
+
+        // attempt 0 is awaited by init_reconnecting_stream itself (its latency elapses by auto-advance)
+        let base = init_reconnecting_stream(make_init(case, sh.clone())).await;
+        let base = base.expect("scripts start with a successful attempt");
+        let to_obs = |e: Event<u32, Result<u32, ErrK>>| match e {
+            Event::Reconnecting(o) => Obs::Notice(o),
+            Event::Item(Ok(i)) => Obs::Item(i),
+            Event::Item(Err(e)) => Obs::Err(e.id, e.terminal),
+        };
+        let mut side_tx = None;
+        if case.mode == Mode::MergedPlain {
+            let (tx, side_rx) = mpsc_unbounded::<Event<u32, Result<u32, ErrK>>>();
+            side_tx = Some(tx);
+            let merged = merge(
+                side_rx.into_stream(),
+                base.with_reconnect_backoff::<_, InitErr>(policy, key).with_reconnection_events(ORIGIN),
+            );
+            return drive(case, &sh, &fw, &waker, Subject::S(Box::pin(merged.map(to_obs))), None, side_tx).await;
+        }
+        let events = base
+            .with_reconnect_backoff(policy, key)
+            .with_termination_on_error(|e: &ErrK| e.terminal, key)
+            .with_reconnection_events(ORIGIN);
+
+        let handler = {
+            let sh = sh.clone();
+            move |e: ErrK| sh.log.lock().unwrap().handled.push(e)
+        };
+        let mut rx = None;
+        let subject = match case.mode {
+            Mode::MergedPlain => unreachable!(),
+            Mode::Pass => Subject::S(Box::pin(events.map(to_obs))),
+            Mode::Handler => Subject::S(Box::pin(events.with_error_handler(handler).map(obs_of))),
+            Mode::ForwardChan => {
+                let (tx, r) = mpsc_unbounded::<Event<u32, u32>>();
+                rx = Some(r);
+                Subject::F(Box::pin(events.with_error_handler(handler).forward_to(tx)))
+            }
+            Mode::ForwardScript => {
+                let tx = ScriptTx { sh: sh.clone(), fail_at: case.fail_at.unwrap_or(usize::MAX) };
+                Subject::F(Box::pin(events.with_error_handler(handler).forward_to(tx)))
+            }
+        };
+
+        drive(case, &sh, &fw, &waker, subject, rx, side_tx).await
+    })
+}
+
+/// The harness' waker: remembers that the subject was woken and passes the wake-up on to the task that runs
+/// the environment loop (so that the paused runtime, when idle, auto-advances the virtual clock exactly to the
+/// next timer deadline of the subject or of the harness and the loop resumes there).
+struct FwdWaker {
+    flag: AtomicBool,
+    outer: Mutex<Option<std::task::Waker>>,
+}
+impl std::task::Wake for FwdWaker {
+    fn wake(self: Arc<Self>) {
+        self.wake_by_ref()
+    }
+    fn wake_by_ref(self: &Arc<Self>) {
+        self.flag.store(true, Ordering::SeqCst);
+        if let Some(w) = self.outer.lock().unwrap().as_ref() {
+            w.wake_by_ref();
+        }
+    }
+}
+
+enum Idle {
+    Woken,
+    SideTick,
+    Horizon,
+}
+
+/// The environment loop: poll the subject by hand (own waker) to quiescence, collect what came out (stamped
+/// with the virtual clock), then let the virtual clock jump to the next timer deadline; until the script plus
+/// `extra` failing attempts have been started (or the horizon is reached).
+async fn drive(
+    case: &Case,
+    sh: &Arc<Shared>,
+    fw: &Arc<FwdWaker>,
+    waker: &std::task::Waker,
+    mut subject: Subject,
+    mut rx: Option<barter_integration::channel::UnboundedRx<Event<u32, u32>>>,
+    side_tx: Option<UnboundedTx<Event<u32, Result<u32, ErrK>>>>,
+) -> Observation {
+    let flag = fw;
+    let mut deadline = Box::pin(tokio::time::sleep_until(sh.t0 + Duration::from_millis(horizon(case))));
+    let mut side_timer = side_tx.as_ref().map(|_| tokio::time::interval(Duration::from_millis(4)));
+    {
+        let mut o = Observation::default();
+        let target_calls = case.script.len() + case.extra;
+        loop {
+            // poll to quiescence
+            let mut spins = 0usize;
+            loop {
+                flag.flag.store(false, Ordering::SeqCst);
+                let mut cx = Context::from_waker(waker);
+                let pending = match &mut subject {
+                    Subject::S(s) => match s.as_mut().poll_next(&mut cx) {
+                        Poll::Ready(Some(ob)) => {
+                            o.outputs.push((sh.now(), ob));
+                            false
+                        }
+                        Poll::Ready(None) => {
+                            o.ended = Some(sh.now());
+                            break;
+                        }
+                        Poll::Pending => true,
+                    },
+                    Subject::F(f) => match f.as_mut().poll(&mut cx) {
+                        Poll::Ready(()) => {
+                            o.ended = Some(sh.now());
+                            break;
+                        }
+                        Poll::Pending => true,
+                    },
+                };
+                if pending {
+                    if !flag.flag.load(Ordering::SeqCst) {
+                        break;
+                    }
+                    spins += 1;
+                    assert!(spins < 100_000, "livelock: subject re-woke itself 100000 times");
+                    if spins % 32 == 0 {
+                        tokio::task::yield_now().await; // refresh the cooperative budget
+                    }
+                }
+            }
+            if let Some(r) = rx.as_mut() {
+                while let Ok(ev) = r.rx.try_recv() {
+                    o.outputs.push((sh.now(), obs_of(ev)));
+                }
+            }
+            let calls = sh.log.lock().unwrap().calls.len();
+            if o.ended.is_some() || calls >= target_calls {
+                break;
+            }
+            // idle: wait (in virtual time) for the subject to be woken, the side-channel tick or the horizon
+            let idle = std::future::poll_fn(|cx| {
+                *fw.outer.lock().unwrap() = Some(cx.waker().clone());
+                if fw.flag.load(Ordering::SeqCst) {
+                    return Poll::Ready(Idle::Woken);
+                }
+                if let Some(iv) = side_timer.as_mut() {
+                    if iv.poll_tick(cx).is_ready() {
+                        return Poll::Ready(Idle::SideTick);
+                    }
+                }
+                if deadline.as_mut().poll(cx).is_ready() {
+                    return Poll::Ready(Idle::Horizon);
+                }
+                Poll::Pending
+            })
+            .await;
+            match idle {
+                Idle::Woken => {}
+                Idle::SideTick => {
+                    let id = 9000 + o.side_pushed.len() as u32;
+                    let tx = side_tx.as_ref().unwrap();
+                    tx.tx.send(Event::Item(Ok(id))).expect("merged stream holds the side receiver");
+                    o.side_pushed.push(id);
+                }
+                Idle::Horizon => {
+                    o.horizon_hit = true;
+                    break;
+                }
+            }
+        }
+        o.stop = sh.now();
+        drop(subject);
+        let g = sh.log.lock().unwrap();
+        o.calls = g.calls.clone();
+        o.handled = g.handled.iter().map(|e| (e.id, e.terminal)).collect();
+        o.sends = g.sends.clone();
+        if case.mode == Mode::ForwardScript {
+            // what "arrived": the sends up to and including the first failed one
+            let n = g.sends.iter().position(|s| !s.2).map(|f| f + 1).unwrap_or(g.sends.len());
+            o.outputs = g.sends[..n].iter().map(|s| (s.0, s.1.clone())).collect();
+        }
+        o
+    }
+}
+
+// ---------------------------------------------------------------------------------------------------
+// Oracle for layer 1
+// ---------------------------------------------------------------------------------------------------
+
+#[derive(Debug, Clone, PartialEq)]
+enum Tok {
+    Must(Obs),
+    /// the statement does not say whether the terminal error itself is passed on: accepted if present
+    May(Obs),
+}
+
+/// What the statement allows the consumer to see, from the script: for every successfully initialised
+/// connection, in attempt order: its items and recoverable errors in order up to its end or first terminal
+/// error, then one notice. Failed attempts contribute nothing.
+fn expected(case: &Case, errors_in_output: bool) -> (Vec<Tok>, Vec<Tok>) {
+    let terminating = case.mode != Mode::MergedPlain; // MergedPlain configures no terminal predicate
+    let mut out = Vec::new();
+    let mut handled = Vec::new();
+    for (c, a) in case.script.iter().enumerate() {
+        let Some(word) = a else { continue };
+        for (p, s) in word.bytes().enumerate() {
+            let id = id_of(c, p);
+            match s {
+                b'I' => out.push(Tok::Must(Obs::Item(id))),
+                b'R' => {
+                    if errors_in_output {
+                        out.push(Tok::Must(Obs::Err(id, false)))
+                    } else {
+                        handled.push(Tok::Must(Obs::Err(id, false)))
+                    }
+                }
+                _ if !terminating => out.push(Tok::Must(Obs::Err(id, true))),
+                _ => {
+                    if errors_in_output {
+                        out.push(Tok::May(Obs::Err(id, true)))
+                    } else {
+                        handled.push(Tok::May(Obs::Err(id, true)))
+                    }
+                    break;
+                }
+            }
+        }
+        out.push(Tok::Must(Obs::Notice(ORIGIN)));
+    }
+    (out, handled)
+}
+
+/// Is (conn,pos) behind the first terminal error of its connection (or not part of the script at all)?
+fn after_terminal(case: &Case, id: u32) -> bool {
+    let (c, p) = ((id / 100) as usize, (id % 100) as usize);
+    match case.script.get(c).and_then(|a| a.as_ref()) {
+        Some(w) => case.mode != Mode::MergedPlain && w.bytes().take(p).any(|s| s == b'T'),
+        None => true,
+    }
+}
+
+/// Compare an observed sequence with the expected token sequence; `complete` = the observed sequence is
+/// supposed to contain everything (false: only a prefix, e.g. sends before the first failed send).
+/// Returns the abstract cause of the first divergence.
+fn match_seq(case: &Case, exp: &[Tok], obs: &[Obs], complete: bool) -> Option<(String, String)> {
+    let kind = |o: &Obs| match o {
+        Obs::Item(_) => "item",
+        Obs::Err(_, false) => "recoverable-error",
+        Obs::Err(_, true) => "terminal-error",
+        Obs::Notice(_) => "notice",
+    };
+    let ido = |o: &Obs| match o {
+        Obs::Item(i) | Obs::Err(i, _) => Some(*i),
+        Obs::Notice(_) => None,
+    };
+    let mut j = 0usize;
+    for (i, x) in obs.iter().enumerate() {
+        // skip optional tokens that are not there
+        while j < exp.len() && matches!(&exp[j], Tok::May(e) if e != x) {
+            j += 1;
+        }
+        let want = exp.get(j);
+        let hit = match want {
+            Some(Tok::Must(e)) | Some(Tok::May(e)) => e == x,
+            None => false,
+        };
+        if hit {
+            j += 1;
+            continue;
+        }
+        let detail = format!("output #{i} is {x:?}, allowed next: {want:?}; observed={obs:?}");
+        if let Obs::Notice(o) = x {
+            if *o != ORIGIN {
+                return Some(("notice-with-wrong-origin".into(), detail));
+            }
+        }
+        let notices = |v: &mut dyn Iterator<Item = &Obs>| v.filter(|o| matches!(o, Obs::Notice(_))).count();
+        let too_many_notices = notices(&mut obs.iter())
+            > exp.iter().filter(|t| matches!(t, Tok::Must(Obs::Notice(_)))).count();
+        let cause = match (x, want) {
+            // a notice that no ended connection accounts for (second notice, notice for a failed attempt, ...)
+            (Obs::Notice(_), None) => "spurious-notice".to_string(),
+            (Obs::Notice(_), Some(_)) => {
+                // a notice while the current connection still has deliverables
+                let at_conn_start = j == 0 || matches!(&exp[j - 1], Tok::Must(Obs::Notice(_)));
+                if at_conn_start && (too_many_notices || !complete) {
+                    "spurious-notice".to_string()
+                } else {
+                    // did a recoverable error precede in this connection?
+                    let mut k = j;
+                    let mut rec = false;
+                    while k > 0 && !matches!(&exp[k - 1], Tok::Must(Obs::Notice(_))) {
+                        if matches!(&exp[k - 1], Tok::Must(Obs::Err(_, false))) {
+                            rec = true;
+                        }
+                        k -= 1;
+                    }
+                    // (with a handler the error is not in `exp`; look at the script instead)
+                    let cur = match want {
+                        Some(Tok::Must(o)) | Some(Tok::May(o)) => ido(o),
+                        None => None,
+                    };
+                    if let Some(id) = cur {
+                        let (c, p) = ((id / 100) as usize, (id % 100) as usize);
+                        if let Some(Some(w)) = case.script.get(c) {
+                            rec |= w.bytes().take(p).any(|s| s == b'R');
+                        }
+                    }
+                    if rec {
+                        "notice-before-connection-end/after-recoverable-error".to_string()
+                    } else {
+                        "notice-before-connection-end".to_string()
+                    }
+                }
+            }
+            (x, want) => {
+                let id = ido(x).unwrap();
+                if obs[..i].contains(x) {
+                    format!("duplicate-{}", kind(x))
+                } else if after_terminal(case, id) {
+                    "delivered-after-terminal-error".to_string()
+                } else {
+                    match want {
+                        // output of the next connection although this connection's notice has not been seen
+                        Some(Tok::Must(Obs::Notice(_))) => "lost-notice".to_string(),
+                        Some(Tok::Must(w)) | Some(Tok::May(w)) => {
+                            let wid = ido(w).unwrap();
+                            if id > wid { format!("lost-{}", kind(w)) } else { "out-of-order".to_string() }
+                        }
+                        None => format!("unexpected-{}", kind(x)),
+                    }
+                }
+            }
+        };
+        return Some((cause, detail));
+    }
+    if complete {
+        while j < exp.len() {
+            if let Tok::Must(m) = &exp[j] {
+                return Some((
+                    format!("lost-{}", kind(m)),
+                    format!("never delivered: {m:?} (expected token #{j}); observed={obs:?}"),
+                ));
+            }
+            j += 1;
+        }
+    }
+    None
+}
+
+/// The wait the statement prescribes after the r-th consecutive failed attempt (r >= 1).
+fn wait_ms(policy: (u64, u8, u64), r: u32) -> u64 {
+    let mut w = policy.0;
+    for _ in 1..r {
+        w = (w.saturating_mul(policy.1 as u64)).min(policy.2);
+    }
+    w
+}
+
+fn judge(case: &Case, o: &Observation) -> Vec<Viol> {
+    let mut v: Vec<Viol> = Vec::new();
+    let forward = matches!(case.mode, Mode::ForwardChan | Mode::ForwardScript);
+    let failed_send = o.sends.iter().position(|s| !s.2);
+
+    // R-never-ends: "the stream never ends by itself" (forward_to: it can only stop because a send failed)
+    if let Some(t) = o.ended {
+        if !forward {
+            v.push(("C12/never-ends/stream-returned-none".into(), format!("the composed stream ended at {t} ms; calls={:?}", o.calls)));
+        } else if failed_send.is_none() {
+            v.push((
+                "C12/forward-to/completed-without-failed-send".into(),
+                format!("forward_to completed at {t} ms although no send failed; calls={:?}", o.calls),
+            ));
+        }
+    }
+
+    // R-delivery: items once, in order, up to end / first terminal error; one notice per ended connection
+    // before anything of the next; recoverable errors passed through; failed attempts deliver nothing.
+    let (exp, exp_handled) = expected(case, matches!(case.mode, Mode::Pass | Mode::MergedPlain));
+    let outs: Vec<Obs> = o.outputs.iter().map(|x| x.1.clone()).collect();
+    let stopped_by_failed_send = case.mode == Mode::ForwardScript && failed_send.is_some();
+    let (side, outs): (Vec<Obs>, Vec<Obs>) = outs.into_iter().partition(|x| matches!(x, Obs::Item(i) if *i >= 9000));
+    // "everything must have arrived" is only judged for runs that got to the end of the script: a run that ended
+    // by itself or ran into the horizon is reported by the never-ends / backoff / progress rules instead
+    let complete = !stopped_by_failed_send && o.ended.is_none() && !o.horizon_hit;
+    if let Some((cause, detail)) = match_seq(case, &exp, &outs, complete) {
+        if case.mode == Mode::ForwardScript {
+            // (the observed sequence is: every successful send, then the first failed one)
+            v.push(("C12/forward-to/lost-before-failed-send".into(), format!("{cause}: {detail}")));
+        } else {
+            v.push((format!("C12/delivery/{cause}"), detail));
+        }
+    }
+    // merge in the account-stream composition: the channel input arrives completely and in order as well
+    if case.mode == Mode::MergedPlain {
+        let want: Vec<Obs> = o.side_pushed.iter().map(|i| Obs::Item(*i)).collect();
+        if side != want {
+            v.push((
+                "C12/merge/channel-input-not-preserved-next-to-reconnecting-stream".into(),
+                format!("pushed into the channel input: {want:?}, came out of the merged stream: {side:?}"),
+            ));
+        }
+    }
+
+    // R-handler: recoverable errors are handed to the handler (exactly once, in order)
+    if !matches!(case.mode, Mode::Pass | Mode::MergedPlain) {
+        let h: Vec<Obs> = o.handled.iter().map(|(i, t)| Obs::Err(*i, *t)).collect();
+        if let Some((cause, detail)) = match_seq(case, &exp_handled, &h, complete) {
+            let cause = match cause.split('-').next().unwrap_or("") {
+                "lost" => "recoverable-error-not-handed-over",
+                "duplicate" => "called-twice-for-one-error",
+                "delivered" => "called-for-error-after-terminal-error",
+                _ => "unexpected-call",
+            };
+            v.push((format!("C12/error-handler/{cause}"), format!("handler calls: {detail}")));
+        }
+    }
+
+    // R-backoff: after the r-th consecutive failed attempt the next attempt starts exactly
+    // min(initial * mult^(r-1), max) later; r restarts after a success. Nothing is demanded about the delay
+    // between a dropped connection and the next attempt.
+    if !stopped_by_failed_send && o.ended.is_none() {
+        let mut run = 0u32;
+        let mut had_earlier_run = false;
+        for (k, c) in o.calls.iter().enumerate() {
+            let scripted_ok = case.script.get(k).map(|a| a.is_some()).unwrap_or(false);
+            let Some(end) = c.end else { break };
+            if c.ok != scripted_ok {
+                v.push(("C12/machinery/attempt-result-mismatch".into(), format!("call {k}: {c:?}")));
+            }
+            if c.ok {
+                if run > 0 {
+                    had_earlier_run = true;
+                }
+                run = 0;
+                continue;
+            }
+            run += 1;
+            let want = wait_ms(case.policy, run);
+            let which = if run == 1 {
+                if had_earlier_run { "first-wait-after-success" } else { "first-wait" }
+            } else if want == case.policy.2 && wait_ms(case.policy, run - 1) == case.policy.2 {
+                "wait-at-maximum"
+            } else {
+                "grown-wait"
+            };
+            match o.calls.get(k + 1) {
+                Some(next) => {
+                    let got = next.start.saturating_sub(end);
+                    if got != want {
+                        let dir = if got < want { "too-short" } else { "too-long" };
+                        v.push((
+                            format!("C12/backoff/{which}/{dir}"),
+                            format!(
+                                "attempt {k} failed at {end} ms (failure #{run} in a row), attempt {} started at {} ms: waited {got} ms, statement says {want} ms; policy={:?} calls={:?}",
+                                k + 1, next.start, case.policy, o.calls
+                            ),
+                        ));
+                        break;
+                    }
+                }
+                None => {
+                    if k + 1 < case.script.len() + case.extra {
+                        v.push((
+                            format!("C12/backoff/{which}/next-attempt-not-observed"),
+                            format!(
+                                "attempt {k} failed at {end} ms; no further attempt until {} ms (allowed wait {want} ms); calls={:?}",
+                                o.stop, o.calls
+                            ),
+                        ));
+                    }
+                    break;
+                }
+            }
+        }
+    }
+    if o.horizon_hit && v.is_empty() {
+        v.push((
+            "C12/progress/script-not-consumed-within-horizon".into(),
+            format!(
+                "only {} init calls by {} ms, expected {}; outputs={:?} calls={:?}",
+                o.calls.len(), o.stop, case.script.len() + case.extra, o.outputs, o.calls
+            ),
+        ));
+    }
+    v
+}
+
+// ---------------------------------------------------------------------------------------------------
+// Enumeration of layer 1
+// ---------------------------------------------------------------------------------------------------
+
+/// all words over {I,R,T} of length <= l, shortest first
+fn words(l: usize) -> Vec<String> {
+    let mut all = vec![String::new()];
+    let mut last = vec![String::new()];
+    for _ in 0..l {
+        let mut next = Vec::new();
+        for w in &last {
+            for s in ["I", "R", "T"] {
+                next.push(format!("{w}{s}"));
+            }
+        }
+        all.extend(next.iter().cloned());
+        last = next;
+    }
+    all
+}
+
+/// Canonical scripts with exactly n attempts: first and last attempt succeed (trailing failures are
+/// covered by the failing attempts that follow every script), the middle ones are anything.
+fn scripts_n(n: usize, ws: &[String]) -> Vec<Vec<Option<String>>> {
+    let s = ws.len();
+    let any: Vec<Option<String>> = std::iter::once(None).chain(ws.iter().cloned().map(Some)).collect();
+    let mut out: Vec<Vec<Option<String>>> = ws.iter().map(|w| vec![Some(w.clone())]).collect();
+    if n == 1 {
+        return out;
+    }
+    for _ in 0..n.saturating_sub(2) {
+        let mut next = Vec::with_capacity(out.len() * (s + 1));
+        for pre in &out {
+            for a in &any {
+                let mut p = pre.clone();
+                p.push(a.clone());
+                next.push(p);
+            }
+        }
+        out = next;
+    }
+    let mut fin = Vec::with_capacity(out.len() * s);
+    for pre in &out {
+        for w in ws {
+            let mut p = pre.clone();
+            p.push(Some(w.clone()));
+            fin.push(p);
+        }
+    }
+    fin
+}
+
+struct Block {
+    n_max: usize,
+    l_max: usize,
+    policies: Vec<(u64, u8, u64)>,
+    timings: Vec<(u64, u64)>,
+    modes: Vec<Mode>,
+}
+
+/// number of canonical scripts with exactly n attempts over s words
+fn script_count(n: usize, s: usize) -> u64 {
+    let s = s as u64;
+    match n {
+        0 => 0,
+        1 => s,
+        _ => s * (s + 1).pow(n as u32 - 2) * s,
+    }
+}
+
+/// the i-th canonical script with exactly n attempts (mixed-radix decoding; same set as `scripts_n`)
+fn script_at(n: usize, ws: &[String], mut i: u64) -> Vec<Option<String>> {
+    let s = ws.len() as u64;
+    let mut out = Vec::with_capacity(n);
+    out.push(Some(ws[(i % s) as usize].clone()));
+    i /= s;
+    if n == 1 {
+        return out;
+    }
+    for _ in 0..n - 2 {
+        let d = (i % (s + 1)) as usize;
+        i /= s + 1;
+        out.push(if d == 0 { None } else { Some(ws[d - 1].clone()) });
+    }
+    out.push(Some(ws[(i % s) as usize].clone()));
+    out
+}
+
+struct Tally {
+    scripts: AtomicU64,
+    evals: AtomicU64,
+    outputs: AtomicU64,
+    attempts: AtomicU64,
+    distinct: Distinct,
+    samples: Samples,
+}
+
+fn run_case(ctx: &Ctx, case: &Case, t: &Tally) {
+    let o = execute(case);
+    t.evals.fetch_add(1, Ordering::Relaxed);
+    t.outputs.fetch_add(o.outputs.len() as u64, Ordering::Relaxed);
+    t.attempts.fetch_add(o.calls.len() as u64, Ordering::Relaxed);
+    t.distinct.add(&o);
+    for (sig, detail) in judge(case, &o) {
+        ctx.violate(sig, detail, serde_json::to_value(case).unwrap());
+    }
+}
+
+// =====================================================================================================
+// Layer 2: merge — all interleavings of pushes, closes and polls
+// =====================================================================================================
+
+fn poll_one<S: Stream + ?Sized>(s: &mut Pin<Box<S>>) -> Poll<Option<S::Item>> {
+    let (flag, waker) = flag_waker();
+    let mut cx = Context::from_waker(&waker);
+    let mut spins = 0;
+    loop {
+        flag.0.store(false, Ordering::SeqCst);
+        match s.as_mut().poll_next(&mut cx) {
+            Poll::Ready(x) => return Poll::Ready(x),
+            Poll::Pending => {
+                if !flag.0.load(Ordering::SeqCst) {
+                    return Poll::Pending;
+                }
+                spins += 1;
+                assert!(spins < 10_000, "merge livelock");
+            }
+        }
+    }
+}
+
+#[derive(Default)]
+struct MergeInfo {
+    /// executions in which the merged stream ended while the other input still held items that had been
+    /// pushed before the ending input was closed (statement silent -> informational)
+    other_ready_dropped: bool,
+    ended: bool,
+}
+
+/// One execution. `variant` 0: inputs are `UnboundedRx::into_stream()`, 1: `UnboundedRx` itself.
+/// Oracle (statement: "merging two streams preserves each input's order and every item up to the point either
+/// input ends"; doc of merge: "terminate when either Stream terminates ... fused"):
+///  * every delivered item is the NEXT undelivered item of its input (order kept, nothing skipped, no duplicate);
+///  * a poll may only stay pending when no input has ended and nothing pushed is undelivered (nothing withheld);
+///  * the merged stream ends only when an input has ended and everything that input held was delivered;
+///  * once an input has ended the merged stream must end (not wait for the other input), and it stays ended.
+fn merge_exec(ch: &mut Chooser, variant: usize, depth: usize, out: &mut Vec<Viol>) -> (u64, MergeInfo) {
+    let (ltx, lrx) = mpsc_unbounded::<u32>();
+    let (rtx, rrx) = mpsc_unbounded::<u32>();
+    let mut s: Pin<Box<dyn Stream<Item = u32>>> = if variant == 0 {
+        Box::pin(merge(lrx.into_stream(), rrx.into_stream()))
+    } else {
+        Box::pin(merge(lrx, rrx))
+    };
+    let mut tx = [Some(ltx), Some(rtx)];
+    let mut pushed = [0u32; 2];
+    let mut delivered = [0u32; 2];
+    let mut pushed_at_close = [[0u32; 2]; 2]; // [closed side] -> pushed counts at that moment
+    let mut info = MergeInfo::default();
+    let mut trace: Vec<String> = Vec::new();
+
+    let on_poll = |r: Poll<Option<u32>>,
+                       tx: &[Option<UnboundedTx<u32>>; 2],
+                       pushed: &[u32; 2],
+                       delivered: &mut [u32; 2],
+                       info: &mut MergeInfo,
+                       trace: &mut Vec<String>,
+                       out: &mut Vec<Viol>| {
+        let closed = [tx[0].is_none(), tx[1].is_none()];
+        let mut bad = |cause: &str, trace: &Vec<String>| {
+            out.push((format!("C12/merge/{cause}"), format!("steps={trace:?} pushed={pushed:?} closed={closed:?}")));
+        };
+        match r {
+            Poll::Ready(Some(x)) => {
+                trace.push(format!("poll->{x}"));
+                let side = if x / 100 == 1 { 0 } else { 1 };
+                let idx = x % 100;
+                if info.ended {
+                    bad("item-after-end", trace);
+                } else if idx < delivered[side] {
+                    bad("duplicate-item", trace);
+                } else if idx >= pushed[side] {
+                    bad("unknown-item", trace);
+                } else if idx > delivered[side] {
+                    bad("item-skipped-or-out-of-order", trace);
+                    delivered[side] = idx + 1;
+                } else {
+                    delivered[side] += 1;
+                }
+            }
+            Poll::Ready(None) => {
+                trace.push("poll->end".into());
+                if !info.ended {
+                    let complete = |s: usize| closed[s] && delivered[s] == pushed[s];
+                    if !closed[0] && !closed[1] {
+                        bad("ended-although-no-input-ended", trace);
+                    } else if !complete(0) && !complete(1) {
+                        bad("ended-before-items-of-ended-input-delivered", trace);
+                    }
+                    info.ended = true;
+                }
+            }
+            Poll::Pending => {
+                trace.push("poll->pending".into());
+                if info.ended {
+                    bad("pending-after-end", trace);
+                } else if closed[0] || closed[1] {
+                    bad("pending-although-an-input-ended", trace);
+                } else if delivered != pushed {
+                    bad("item-withheld", trace);
+                }
+            }
+        }
+    };
+
+    for _ in 0..depth {
+        // enabled actions: 0 poll, then per open side push / close
+        let mut acts: Vec<(u8, usize)> = vec![(0, 0)];
+        for side in 0..2 {
+            if tx[side].is_some() {
+                acts.push((1, side));
+                acts.push((2, side));
+            }
+        }
+        let (a, side) = acts[ch.choose(acts.len())];
+        match a {
+            0 => {
+                let r = poll_one(&mut s);
+                on_poll(r, &tx, &pushed, &mut delivered, &mut info, &mut trace, out);
+            }
+            1 => {
+                let id = (side as u32 + 1) * 100 + pushed[side];
+                let _ = tx[side].as_ref().unwrap().send(id); // fails only after the merged stream has ended and dropped its inputs
+                pushed[side] += 1;
+                trace.push(format!("push{}", ["L", "R"][side]));
+            }
+            _ => {
+                tx[side] = None;
+                pushed_at_close[side] = pushed;
+                trace.push(format!("close{}", ["L", "R"][side]));
+            }
+        }
+    }
+    // final drain: poll until the stream stops yielding items
+    for _ in 0..(pushed[0] + pushed[1] + 2) {
+        let r = poll_one(&mut s);
+        let stop = !matches!(r, Poll::Ready(Some(_)));
+        on_poll(r, &tx, &pushed, &mut delivered, &mut info, &mut trace, out);
+        if stop {
+            break;
+        }
+    }
+    if info.ended {
+        // informational: items of the other input that were ready before the ended input was closed
+        for side in 0..2 {
+            let other = 1 - side;
+            if tx[side].is_none() && delivered[side] == pushed[side] && delivered[other] < pushed_at_close[side][other] {
+                info.other_ready_dropped = true;
+            }
+        }
+        // stays ended, whatever arrives afterwards
+        for side in 0..2 {
+            if let Some(t) = tx[side].as_ref() {
+                let _ = t.send((side as u32 + 1) * 100 + pushed[side]);
+                pushed[side] += 1;
+                trace.push(format!("push{}", ["L", "R"][side]));
+            }
+        }
+        for _ in 0..2 {
+            let r = poll_one(&mut s);
+            on_poll(r, &tx, &pushed, &mut delivered, &mut info, &mut trace, out);
+        }
+    }
+    (hash_of(&trace), info)
+}
+
+// =====================================================================================================
+// Layer 3: forward_to — all interleavings of pushes, polls, source close, receiver drop
+// =====================================================================================================
+
+/// `variant` 0: real `UnboundedTx`, the harness holds (and may drop) the receiver; 1: scripted `Tx` whose
+/// first choice is the number of the first failing send.
+/// Oracle ("forward_to loses nothing before the first failed send"): after every quiescent poll everything
+/// pushed so far (up to the first failed send) has arrived, in order, exactly once; the send that fails carries
+/// the next item; the future completes only when the source ended or a send failed.
+fn forward_exec(ch: &mut Chooser, variant: usize, depth: usize, out: &mut Vec<Viol>) -> (u64, bool) {
+    let (src_tx, src_rx) = mpsc_unbounded::<u32>();
+    let sh = Arc::new(Shared { t0: Instant::now(), log: Mutex::new(Log::default()) });
+    let mut rx = None;
+    let mut fail_at = usize::MAX;
+    let mut fut: Pin<Box<dyn Future<Output = ()> + Send>> = if variant == 0 {
+        let (tx, r) = mpsc_unbounded::<u32>();
+        rx = Some(r);
+        Box::pin(src_rx.forward_to(tx))
+    } else {
+        fail_at = ch.choose(4);
+        Box::pin(src_rx.forward_to(NumTx { sh: sh.clone(), fail_at }))
+    };
+    let mut src = Some(src_tx);
+    let mut pushed = 0u32;
+    let mut received = 0u32; // variant 0: taken from the receiver; variant 1: successful sends
+    let mut forwarded_at_drop: Option<u32> = None;
+    let mut done = false;
+    let mut stopped_after_failure = false;
+    let mut trace: Vec<String> = Vec::new();
+    let (flag, waker) = flag_waker();
+
+    for _ in 0..depth {
+        let mut acts = vec![0u8];
+        if src.is_some() {
+            acts.push(1);
+            acts.push(2);
+        }
+        if rx.is_some() {
+            acts.push(3);
+        }
+        match acts[ch.choose(acts.len())] {
+            0 => {
+                if done {
+                    trace.push("poll(done)".into());
+                    continue;
+                }
+                let mut cx = Context::from_waker(&waker);
+                let mut spins = 0;
+                let r = loop {
+                    flag.0.store(false, Ordering::SeqCst);
+                    match fut.as_mut().poll(&mut cx) {
+                        Poll::Ready(()) => break true,
+                        Poll::Pending => {
+                            if !flag.0.load(Ordering::SeqCst) {
+                                break false;
+                            }
+                            spins += 1;
+                            assert!(spins < 10_000, "forward livelock");
+                        }
+                    }
+                };
+                trace.push(format!("poll->{}", if r { "done" } else { "pending" }));
+                let mut bad = |cause: &str, what: String| {
+                    out.push((format!("C12/forward-to/{cause}"), format!("{what}; steps={trace:?}")));
+                };
+                // what arrived
+                let mut failed = false;
+                if variant == 0 {
+                    if let Some(rcv) = rx.as_mut() {
+                        while let Ok(x) = rcv.rx.try_recv() {
+                            if x != received {
+                                bad(if x < received { "duplicate-item" } else { "item-lost" }, format!("received {x}, expected {received}"));
+                            }
+                            received = x + 1;
+                        }
+                        if received != pushed {
+                            bad("item-lost", format!("pushed {pushed}, arrived {received}"));
+                        }
+                    } else {
+                        failed = pushed > forwarded_at_drop.unwrap();
+                    }
+                } else {
+                    let g = sh.log.lock().unwrap();
+                    let oks: Vec<u32> = g.sends.iter().take_while(|s| s.2).map(|s| if let Obs::Item(i) = s.1 { i } else { 0 }).collect();
+                    let want: Vec<u32> = (0..pushed.min(fail_at as u32)).collect();
+                    if oks != want {
+                        bad("lost-before-failed-send", format!("successful sends {oks:?}, pushed before the first failing send {want:?}"));
+                    }
+                    received = oks.len() as u32;
+                    if let Some(f) = g.sends.iter().find(|s| !s.2) {
+                        failed = true;
+                        if f.1 != Obs::Item(fail_at as u32) {
+                            bad("lost-before-failed-send", format!("failed send carried {:?}, expected item {fail_at}", f.1));
+                        }
+                    }
+                }
+                if r {
+                    done = true;
+                    if src.is_some() && !failed {
+                        bad("completed-without-failed-send", format!("source open, pushed {pushed}, arrived {received}"));
+                    }
+                }
+                if failed && r {
+                    stopped_after_failure = true;
+                }
+            }
+            1 => {
+                let _ = src.as_ref().unwrap().send(pushed);
+                pushed += 1;
+                trace.push("push".into());
+            }
+            2 => {
+                src = None;
+                trace.push("close-source".into());
+            }
+            _ => {
+                rx = None;
+                forwarded_at_drop = Some(received);
+                trace.push("drop-receiver".into());
+            }
+        }
+    }
+    (hash_of(&trace), stopped_after_failure)
+}
+
+/// Scripted `Tx` over plain numbers (layer 3).
+#[derive(Clone)]
+struct NumTx {
+    sh: Arc<Shared>,
+    fail_at: usize,
+}
+impl std::fmt::Debug for NumTx {
+    fn fmt(&self, f: &mut std::fmt::Formatter<'_>) -> std::fmt::Result {
+        write!(f, "NumTx(fail_at={})", self.fail_at)
+    }
+}
+impl Tx for NumTx {
+    type Item = u32;
+    type Error = SendFail;
+    fn send<Item: Into<u32>>(&self, item: Item) -> Result<(), SendFail> {
+        let mut g = self.sh.log.lock().unwrap();
+        let ok = g.sends.len() < self.fail_at;
+        g.sends.push((0, Obs::Item(item.into()), ok));
+        if ok { Ok(()) } else { Err(SendFail) }
+    }
+}
+
+// =====================================================================================================
+// run / replay
+// =====================================================================================================
+
+const POLICIES: [(u64, u8, u64); 4] = [(1, 2, 4), (2, 3, 5), (3, 1, 3), (5, 2, 5)];
+
+pub fn run(ctx: &Ctx) -> Outcome {
+    let thorough = ctx.tier == crate::core::Tier::Thorough;
+    let extra = 5usize;
+
+    // ---------------- layer 1 ----------------
+    // The enumerated script space is the union of the blocks; a script that already fits an earlier block is
+    // skipped in the later ones, so every (script, policy, timing, mode) is executed once.
+    let p4: Vec<(u64, u8, u64)> = POLICIES.to_vec();
+    let p6: Vec<(u64, u8, u64)> = POLICIES.iter().copied().chain([(2, 2, 3), (1, 3, 10)]).collect();
+    let t3 = vec![(0u64, 0u64), (7, 0), (0, 3)];
+    let t5 = vec![(0u64, 0u64), (7, 0), (0, 3), (7, 3), (2, 1)];
+    let m4 = vec![Mode::Pass, Mode::Handler, Mode::ForwardChan, Mode::MergedPlain];
+    let blk = |n_max, l_max, policies: &[(u64, u8, u64)], timings: &[(u64, u64)], modes: &[Mode]| Block {
+        n_max,
+        l_max,
+        policies: policies.to_vec(),
+        timings: timings.to_vec(),
+        modes: modes.to_vec(),
+    };
+    let blocks: Vec<Block> = if thorough {
+        vec![
+            blk(4, 2, &p6, &t5, &m4),
+            blk(7, 1, &p6, &t5, &m4),
+            blk(3, 3, &p4, &t3, &m4),
+            blk(5, 2, &p4, &t3, &m4),
+            blk(4, 3, &p4[..1], &[(7, 0)], &[Mode::Pass, Mode::ForwardChan]),
+        ]
+    } else {
+        vec![
+            blk(4, 2, &p4, &t3, &m4),
+            blk(6, 1, &p4, &t3, &m4),
+            blk(3, 3, &p4[..1], &[(7, 3)], &m4),
+        ]
+    };
+    let tally = Tally {
+        evals: AtomicU64::new(0),
+        outputs: AtomicU64::new(0),
+        attempts: AtomicU64::new(0),
+        scripts: AtomicU64::new(0),
+        distinct: Distinct::default(),
+        samples: Samples::new(6),
+    };
+    let mk = |script: &Vec<Option<String>>, policy, (lat, pace), mode, fail_at| Case {
+        layer: "reconnect".into(),
+        policy,
+        script: script.clone(),
+        lat,
+        pace,
+        mode,
+        fail_at,
+        extra,
+    };
+
+    // determinism self-check: a fixed sample of cases executed twice must give identical observations
+    {
+        let ws = words(2);
+        let total = script_count(4, ws.len());
+        for i in (0..total).step_by((total / 60).max(1) as usize) {
+            let script = script_at(4, &ws, i);
+            for mode in [Mode::Pass, Mode::ForwardChan, Mode::MergedPlain] {
+                let c = mk(&script, POLICIES[1], (7, 3), mode, None);
+                if execute(&c) != execute(&c) {
+                    eprintln!("MACHINERY: C12 nondeterministic observation for {c:?}");
+                    std::process::exit(2);
+                }
+            }
+        }
+    }
+
+    let mut block_report = Vec::new();
+    for (bi, b) in blocks.iter().enumerate() {
+        let ws = words(b.l_max);
+        let before = (tally.scripts.load(Ordering::Relaxed), tally.evals.load(Ordering::Relaxed));
+        for n in 1..=b.n_max {
+            let total = script_count(n, ws.len());
+            (0..total).into_par_iter().for_each(|i| {
+                let script = script_at(n, &ws, i);
+                let wl = script.iter().flatten().map(|w| w.len()).max().unwrap_or(0);
+                if blocks[..bi].iter().any(|e| n <= e.n_max && wl <= e.l_max) {
+                    return; // already enumerated with an earlier block
+                }
+                tally.scripts.fetch_add(1, Ordering::Relaxed);
+                for policy in &b.policies {
+                    for timing in &b.timings {
+                        for mode in &b.modes {
+                            let c = mk(&script, *policy, *timing, *mode, None);
+                            run_case(ctx, &c, &tally);
+                        }
+                    }
+                }
+            });
+        }
+        block_report.push(json!({
+            "max_attempts": b.n_max, "max_word_len": b.l_max,
+            "policies_(initial_ms,multiplier,max_ms)": b.policies, "timings_(init_latency_ms,pace_ms)": b.timings, "modes": b.modes,
+            "new_scripts": tally.scripts.load(Ordering::Relaxed) - before.0,
+            "executions": tally.evals.load(Ordering::Relaxed) - before.1,
+        }));
+    }
+    for (script, policy, timing, mode) in [
+        (vec![Some("IR".to_string()), None, None, Some("ITI".to_string())], POLICIES[0], (7u64, 0u64), Mode::Pass),
+        (vec![Some("RI".to_string()), Some("".to_string()), None, Some("T".to_string())], POLICIES[1], (0, 3), Mode::Handler),
+        (vec![Some("I".to_string()), None, None, None, Some("II".to_string())], POLICIES[3], (7, 0), Mode::ForwardChan),
+    ] {
+        let c = mk(&script, policy, timing, mode, None);
+        let o = execute(&c);
+        tally.samples.offer(|| json!({"case": c, "outputs_(ms,event)": format!("{:?}", o.outputs), "init_calls": format!("{:?}", o.calls), "handler_calls": format!("{:?}", o.handled)}));
+    }
+    let reconnect_main = tally.evals.load(Ordering::Relaxed);
+
+    // forward_to with a transmitter that starts failing at every possible position
+    let fs_bound = if thorough { (3usize, 3usize) } else { (3, 2) };
+    let ws = words(fs_bound.1);
+    let fs_scripts: Vec<Vec<Option<String>>> = (1..=fs_bound.0).flat_map(|n| scripts_n(n, &ws)).collect();
+    fs_scripts.par_iter().for_each(|script| {
+        let probe = mk(script, POLICIES[0], (0, 0), Mode::ForwardScript, None);
+        let total = expected(&probe, false).0.len();
+        for fail_at in 0..=total {
+            for timing in [(0u64, 0u64), (7, 3)] {
+                let c = mk(script, POLICIES[0], timing, Mode::ForwardScript, Some(fail_at));
+                run_case(ctx, &c, &tally);
+            }
+        }
+    });
+    let reconnect_all = tally.evals.load(Ordering::Relaxed);
+
+    // ---------------- layer 2: merge ----------------
+    let merge_depth = ctx.tier.pick(9usize, 11usize);
+    let merge_distinct = Distinct::default();
+    let merge_dropped = AtomicU64::new(0);
+    let merge_ended = AtomicU64::new(0);
+    let mut merge_stats = Vec::new();
+    // (depth bound iterated 1, 2, ... so that the retained counter-example is the shortest)
+    for (variant, merge_depth) in (0..2usize).flat_map(|v| (1..=merge_depth).map(move |d| (v, d))) {
+        let st = choice::explore(None, |ch| {
+            let mut out = Vec::new();
+            let (h, info) = merge_exec(ch, variant, merge_depth, &mut out);
+            merge_distinct.add_hash(h);
+            if info.other_ready_dropped {
+                merge_dropped.fetch_add(1, Ordering::Relaxed);
+            }
+            if info.ended {
+                merge_ended.fetch_add(1, Ordering::Relaxed);
+            }
+            for (sig, detail) in out {
+                ctx.violate(sig, detail, json!({"layer": "merge", "variant": variant, "depth": merge_depth, "choices": ch.choices()}));
+            }
+        });
+        merge_stats.push(json!({"variant": (["UnboundedRx::into_stream", "UnboundedRx"][variant]), "schedules": st.executions, "choice_points": st.choice_points, "depth": merge_depth}));
+    }
+    let merge_execs: u64 = merge_stats.iter().map(|s| s["schedules"].as_u64().unwrap()).sum();
+
+    // ---------------- layer 3: forward_to ----------------
+    let fwd_depth = ctx.tier.pick(10usize, 12usize);
+    let fwd_distinct = Distinct::default();
+    let fwd_stopped = AtomicU64::new(0);
+    let mut fwd_stats = Vec::new();
+    for (variant, fwd_depth) in (0..2usize).flat_map(|v| (1..=fwd_depth).map(move |d| (v, d))) {
+        let st = choice::explore(None, |ch| {
+            let mut out = Vec::new();
+            let (h, stopped) = forward_exec(ch, variant, fwd_depth, &mut out);
+            fwd_distinct.add_hash(h);
+            if stopped {
+                fwd_stopped.fetch_add(1, Ordering::Relaxed);
+            }
+            for (sig, detail) in out {
+                ctx.violate(sig, detail, json!({"layer": "forward", "variant": variant, "depth": fwd_depth, "choices": ch.choices()}));
+            }
+        });
+        fwd_stats.push(json!({"variant": (["UnboundedTx", "scripted Tx failing from send f in 0..=3"][variant]), "schedules": st.executions, "choice_points": st.choice_points, "depth": fwd_depth}));
+    }
+    let fwd_execs: u64 = fwd_stats.iter().map(|s| s["schedules"].as_u64().unwrap()).sum();
+
+    let distinct = tally.distinct.len() + merge_distinct.len() + fwd_distinct.len();
+    Outcome {
+        level: "exploration",
+        coverage: json!({
+            "evaluations": reconnect_all + merge_execs + fwd_execs,
+            "distinct_nontrivial": distinct,
+            "exhaustive": true,
+            "rule": "E-ENV: every connection script within the bounds x backoff policy x timing x observation mode executed on the real init_reconnecting_stream/with_reconnect_backoff/with_termination_on_error/with_reconnection_events(/with_error_handler/forward_to) composition under a paused tokio clock (subject polled by hand with the harness' waker; the virtual clock jumps from timer deadline to timer deadline; every output and init call stamped), compared with the trace the statement allows; all interleavings of push/close/poll for merge and of push/close/poll/drop-receiver for forward_to",
+            "reconnect": {
+                "scripts": tally.scripts.load(Ordering::Relaxed),
+                "blocks": block_report,
+                "failing_attempts_observed_after_script": extra,
+                "executions_main": reconnect_main,
+                "executions_forward_failing_tx": reconnect_all - reconnect_main,
+                "forward_failing_tx_bounds_(max_attempts,max_word_len)": [fs_bound.0, fs_bound.1],
+                "outputs_checked": tally.outputs.load(Ordering::Relaxed),
+                "init_attempts_observed": tally.attempts.load(Ordering::Relaxed),
+                "distinct_observations": tally.distinct.len(),
+            },
+            "merge": {
+                "per_variant": merge_stats,
+                "distinct_traces": merge_distinct.len(),
+                "schedules_in_which_merged_stream_ended": merge_ended.load(Ordering::Relaxed),
+                "informational_schedules_where_ready_items_of_other_input_were_not_delivered_at_end": merge_dropped.load(Ordering::Relaxed),
+            },
+            "forward_to": {
+                "per_variant": fwd_stats,
+                "distinct_traces": fwd_distinct.len(),
+                "informational_schedules_where_future_completed_after_failed_send": fwd_stopped.load(Ordering::Relaxed),
+            },
+            "samples": tally.samples.take(),
+        }),
+        assumptions: vec![
+            "the first connection attempt succeeds (init_reconnecting_stream returns Err otherwise; the statement speaks about re-initialisation)".into(),
+            "backoff policies have 1 <= initial <= max and multiplier >= 1; waits are compared exactly in virtual milliseconds".into(),
+            "connections are finite words over {item, recoverable error, terminal error} followed by end-of-stream; all attempts after the script fail".into(),
+            "the statement is silent on (a) whether the terminal error itself is passed on, (b) the delay between a dropped connection and the next attempt, (c) ready items of the other merge input when one input ends, (d) whether forward_to stops after a failed send: all accepted, (c) and (d) counted as informational".into(),
+            "merge / forward_to inputs are barter_integration mpsc_unbounded channels; a 'poll' is repeated while the subject wakes itself".into(),
+        ],
+    }
+}
+
+pub fn replay(ctx: &Ctx, case: &Value) {
+    match case["layer"].as_str().unwrap_or("") {
+        "reconnect" => {
+            let c: Case = serde_json::from_value(case.clone()).expect("C12 reconnect case");
+            let o = execute(&c);
+            println!("observed outputs: {:?}\ninit calls: {:?}\nhandler: {:?}\nsends: {:?}\nended: {:?}", o.outputs, o.calls, o.handled, o.sends, o.ended);
+            for (sig, detail) in judge(&c, &o) {
+                ctx.violate(sig, detail, case.clone());
+            }
+        }
+        layer @ ("merge" | "forward") => {
+            let variant = case["variant"].as_u64().unwrap_or(0) as usize;
+            let depth = case["depth"].as_u64().unwrap_or(0) as usize;
+            let prefix: Vec<usize> = case["choices"].as_array().map(|a| a.iter().map(|x| x.as_u64().unwrap() as usize).collect()).unwrap_or_default();
+            let mut ch = Chooser::new(prefix);
+            let mut out = Vec::new();
+            if layer == "merge" {
+                merge_exec(&mut ch, variant, depth, &mut out);
+            } else {
+                forward_exec(&mut ch, variant, depth, &mut out);
+            }
+            for (sig, detail) in out {
+                ctx.violate(sig, detail, case.clone());
+            }
+        }
+        other => {
+            eprintln!("MACHINERY: unknown C12 layer {other:?}");
+            std::process::exit(2);
+        }
+    }
 }
